@@ -141,6 +141,12 @@ C16(e, pre, post, mon) ==
     LET tx == e.tx  g == pre.gov  fee == Fee(tx, g)  ok == e.resp.ok IN
       If(ok /\ tx.gasPrice # g.gasPrice, "C16: admitted with a gas price different from the governance gas price")
       \cup If(ok /\ BLt(fee, BMul(g.minTrxGas, g.gasPrice)), "C16: admitted although gas limit x price is below the minimum fee")
+      \* the parameters "currently set by governance" are those the governance query returns for the previous block
+      \cup (IF ok /\ (post.h - 1) \in DOMAIN mon.snaps /\ "gasPrice" \in DOMAIN mon.snaps[post.h - 1].gov THEN
+              LET q == mon.snaps[post.h - 1].gov IN
+              If(tx.gasPrice # q.gasPrice \/ BLt(BMul(tx.gas, q.gasPrice), BMul(q.minTrxGas, q.gasPrice)),
+                 "C16: admitted at a price / below a minimum fee that are not those of the parameters committed by the previous block (governance query)")
+            ELSE {})
       \cup If(ok /\ Native(tx) /\ ~EvmTx(pre, tx)
                  /\ BAdd(Bal(post, tx.from), BAdd(fee, Outflow(tx))) # BAdd(Bal(pre, tx.from), Inflow(tx)),
               "C16: a successful native transaction did not cost its sender exactly gas limit x price (plus the value it moves)")
@@ -508,6 +514,11 @@ C15(e, pre, post, mon) ==
   \cup
   (IF IsTx(e) /\ e.resp.ok /\ e.tx.type \notin {"proposal", "voting"} THEN
       If(post.props # pre.props \/ post.fprops # pre.fprops, "C15: a non-governance transaction changed a proposal")
+   ELSE {})
+  \cup
+  (IF IsTx(e) /\ ~e.resp.ok /\ e.tx.type \in {"proposal", "voting"} THEN
+      If(post.props # pre.props \/ post.fprops # pre.fprops,
+         "C15: a refused vote or proposal changed a proposal (the latest accepted vote of each voter must stand)")
    ELSE {})
   \cup
   (IF e.ev = "EndBlock" THEN
